@@ -1,7 +1,8 @@
 """Shared by checks/c09.py (WhenAll / Join) and checks/c10.py (WhenAny): scenario naming, the purely syntactic
-mapping from implementation traces (harness/when_h.hpp) to events of coq/model/When.v, replay inside Coq and
-comparison of the model's prediction with what the implementation showed."""
-import concurrent.futures, json, os, re, subprocess, time
+mapping from implementation traces (harness/when_h.hpp) to events of coq/model/When.v, replay of the model (inside
+Coq with vm_compute, and through the OCaml extraction of the same Gallina function for the bulk), and comparison
+of the model's prediction with what the implementation showed."""
+import concurrent.futures, hashlib, json, os, re, shutil, subprocess, time
 import vlib, runner
 
 HEADER = ("From Coq Require Import List NArith. Import ListNotations.\n"
@@ -9,10 +10,11 @@ HEADER = ("From Coq Require Import List NArith. Import ListNotations.\n"
 
 
 def parse_name(name):
-    """allff/vecUval/2/ve/q01 -> dict(kind, form, inputs, typ, n, pat, arr)"""
-    kind, fi, n, pat, arr = name.split("/")
+    """allff/vecUval/2/q01/ve -> dict(kind, form, inputs, typ, n, pat, arr)"""
+    kind, fi, n, arr, pat = name.split("/")
     m = re.match(r"(vec|var)([USM])(val|void|het)$", fi)
-    return dict(kind=kind, form=m.group(1), inputs=m.group(2), typ=m.group(3), n=int(n), pat=pat, arr=arr, cfg="/".join((kind, fi, n)))
+    return dict(kind=kind, form=m.group(1), inputs=m.group(2), typ=m.group(3), n=int(n), pat=pat, arr=arr,
+                cfg="/".join((kind, fi, n)), name=name)
 
 
 def strategy(sc):
@@ -38,11 +40,11 @@ def has_model(sc):
 
 def res_of_code(c):
     if 1000 <= c < 2000:
-        return "RVal %d" % (c - 1000)
+        return (0, c - 1000)
     if 2000 <= c < 3000:
-        return "RErr %d" % (c - 2000)
+        return (1, c - 2000)
     if 3000 <= c < 4000:
-        return "RExc %d" % (c - 3000)
+        return (2, c - 3000)
     raise ValueError("bad result code %d" % c)
 
 
@@ -61,29 +63,35 @@ class MapError(ValueError):
     pass
 
 
+WORDS = {"E": 0, "C": 1, "R": 2}
+TOKRE = re.compile(r"([a-z_]+)@([a-z]+)(\d*)=(\w+)$")
+
+
 def to_events(sc, trace):
-    """Implementation trace -> (list of Gallina events, observed (count, codes)).  Syntactic; the value returned by
-    an exchange / fetch_sub and the success of a CAS are reconstructed from the previous value of that word (the
-    FIBER backend is sequentially consistent)."""
+    """Implementation trace -> (tuple of event tuples, observed (count, codes)).  Syntactic; the value returned by an
+    exchange / fetch_sub and the success of a CAS are reconstructed from the previous value of that word (the FIBER
+    backend is sequentially consistent).  Event tuples: see render_coq."""
     sg = strategy(sc)
     owned = sg in OWNED
     toks = [t for t in trace.split(";") if t]
-    # which fetch_sub on a shared input's reference counter belong to its own promise (SetResultImpl<Shared>:
-    # one before the callback list is run, two after): on the producer's fiber the first and the last two
+    # which fetch_sub on a shared input's reference counter belong to its own promise (SetResultImpl<Shared>: one
+    # before the callback list is run, two after): inside the producer's Set call, the first and the last two
     own = set()
-    for pos, t in enumerate(toks):
-        m = re.match(r"(\w+):exchange@w(\d+)=R$", t)
-        if not m or not is_shared(sc, int(m.group(2))):
-            continue
-        f, i = m.group(1), int(m.group(2))
-        try:
-            end = toks.index("%s:!r%d" % (f, i), pos)
-        except ValueError:
-            raise MapError("input %d: Set did not return" % i)
-        idx = [p for p in range(pos, end) if toks[p].startswith("%s:fetch_sub@rc%d=" % (f, i))]
-        if len(idx) < 3:
-            raise MapError("shared input %d: its promise dropped %d references, 3 expected" % (i, len(idx)))
-        own.update([idx[0], idx[-2], idx[-1]])
+    if sc["inputs"] != "U":
+        for pos, t in enumerate(toks):
+            m = re.match(r"(\w+):exchange@w(\d+)=R$", t)
+            if not m or not is_shared(sc, int(m.group(2))):
+                continue
+            f, i = m.group(1), int(m.group(2))
+            try:
+                end = toks.index("%s:!r%d" % (f, i), pos)
+            except ValueError:
+                raise MapError("input %d: Set did not return" % i)
+            pre = "%s:fetch_sub@rc%d=" % (f, i)
+            idx = [p for p in range(pos, end) if toks[p].startswith(pre)]
+            if len(idx) < 3:
+                raise MapError("shared input %d: its promise dropped %d references, 3 expected" % (i, len(idx)))
+            own.update([idx[0], idx[-2], idx[-1]])
     cur = {}
     curin = {}
     breg = 0
@@ -94,20 +102,21 @@ def to_events(sc, trace):
         who, _, rest = t.partition(":")
         if rest.startswith("!"):
             txt = rest[1:]
-            if txt.startswith("c"):
-                m = re.match(r"c(\d+) (\d+)$", txt)
-                evs.append("EComplete %s (%s)" % (m.group(1), res_of_code(int(m.group(2)))))
-            elif txt.startswith("out"):
+            c0 = txt[0]
+            if txt.startswith("out"):
                 nums = [int(x) for x in txt.split()[1:]]
                 observed = (nums[0], nums[1:])
-            elif re.match(r"r\d+$", txt):
+            elif c0 == "c":
+                a, b = txt[1:].split(" ")
+                evs.append(("C", int(a)) + res_of_code(int(b)))
+            elif c0 == "r":
                 pass
             elif txt in ("invalid", "valid"):
                 observed = (txt, [])
             else:
                 raise MapError("unknown harness event " + t)
             continue
-        m = re.match(r"([a-z_]+)@([a-z]+)(\d*)=(\w+)$", rest)
+        m = TOKRE.match(rest)
         if not m:
             raise MapError("unknown trace token " + t)
         op, loc, idx, val = m.group(1), m.group(2), m.group(3), m.group(4)
@@ -117,7 +126,7 @@ def to_events(sc, trace):
             if op == "exchange":
                 if val != "R":
                     raise MapError("exchange on a callback word to " + val)
-                evs.append("EXchg %d %s" % (i, {"E": "WE", "C": "WC", "R": "WR"}[old]))
+                evs.append(("X", i, WORDS[old]))
                 cur[("w", i)] = "R"
                 if old == "C":
                     curin[who] = i
@@ -127,7 +136,7 @@ def to_events(sc, trace):
                 ok = old == "E" and val == "C"
                 if not ok and val != "R":
                     raise MapError("failed CAS left " + val)
-                evs.append("EReg %d %s" % (i, "true" if ok else "false"))
+                evs.append(("R", i, 1 if ok else 0))
                 cur[("w", i)] = val
                 breg += 1
                 if not ok:
@@ -135,7 +144,7 @@ def to_events(sc, trace):
             elif op == "load":
                 if who == "B" and i == breg:
                     if val == "R":
-                        evs.append("EReg %d false" % i)
+                        evs.append(("R", i, 0))
                         breg += 1
                         curin[who] = i
                     elif val != "E":
@@ -147,9 +156,9 @@ def to_events(sc, trace):
                     elif owned:
                         if dtor is None or dtor[0] != who:
                             raise MapError("owned input destroyed outside the destructor: " + t)
-                        evs.append("EDFree %d %d" % (dtor[1], i))
+                        evs.append(("DF", dtor[1], i))
                     else:
-                        evs.append("EFree %d" % i)
+                        evs.append(("F", i))
                 else:
                     raise MapError("unexpected load of a callback word: " + t)
             else:
@@ -165,17 +174,17 @@ def to_events(sc, trace):
             if owned:
                 if dtor is None or dtor[0] != who:
                     raise MapError("owned input released outside the destructor: " + t)
-                evs.append("EDFree %d %d" % (dtor[1], i))
+                evs.append(("DF", dtor[1], i))
             else:
-                evs.append("EFree %d" % i)
+                evs.append(("F", i))
         elif loc == "d":
             old = cur.get("d", "0")
             if who not in curin:
                 raise MapError("strategy operation outside a consume step: " + t)
             if op == "load":
-                evs.append("ELdDone %d %s" % (curin[who], "true" if val == "1" else "false"))
+                evs.append(("LD", curin[who], 1 if val == "1" else 0))
             elif op == "exchange":
-                evs.append("EXchgDone %d %s" % (curin[who], "true" if old == "1" else "false"))
+                evs.append(("XD", curin[who], 1 if old == "1" else 0))
                 cur["d"] = val
             else:
                 raise MapError("unexpected operation on _done: " + t)
@@ -187,16 +196,16 @@ def to_events(sc, trace):
                 raise MapError("strategy operation outside a consume step: " + t)
             i = curin[who]
             if op == "load":
-                evs.append("ELdState %d %s%%N" % (i, val))
+                evs.append(("LS", i, val))
             elif op == "exchange":
-                evs.append("EXchgState %d %s%%N" % (i, old))
+                evs.append(("XS", i, old))
                 cur["s"] = val
             elif op == "compare_exchange_strong":
                 ok = old == "0" and val == "1"
-                evs.append("ECasState %d %s" % (i, "true" if ok else "false"))
+                evs.append(("CS", i, 1 if ok else 0))
                 cur["s"] = val
             elif op == "fetch_sub":
-                evs.append("ESubState %d %s%%N" % (i, old))
+                evs.append(("SS", i, old))
                 cur["s"] = val
             else:
                 raise MapError("unexpected operation on _state: " + t)
@@ -205,21 +214,61 @@ def to_events(sc, trace):
                 raise MapError("unexpected operation on the combinator counter: " + t)
             if who not in curin:
                 raise MapError("DecRef outside a consume step: " + t)
-            evs.append("EDec %d %d" % (curin[who], int(val) + 1))
+            evs.append(("D", curin[who], int(val) + 1))
             if val == "0":
                 dtor = (who, curin[who])
         elif loc == "o":
             if op != "exchange":
                 raise MapError("unexpected operation on the output word: " + t)
             if dtor is not None and dtor[0] == who:
-                evs.append("EPublish %d" % dtor[1])
+                evs.append(("P", dtor[1]))
             else:
                 if who not in curin:
                     raise MapError("output set outside a consume step: " + t)
-                evs.append("ESetOut %d" % curin[who])
+                evs.append(("SO", curin[who]))
         else:
             raise MapError("unknown location in " + t)
-    return evs, observed
+    return tuple(evs), observed
+
+
+BOOL = {0: "false", 1: "true"}
+
+
+def render_coq(e):
+    k = e[0]
+    if k == "C":
+        return "EComplete %d (%s %d)" % (e[1], ("RVal", "RErr", "RExc")[e[2]], e[3])
+    if k == "X":
+        return "EXchg %d %s" % (e[1], ("WE", "WC", "WR")[e[2]])
+    if k == "R":
+        return "EReg %d %s" % (e[1], BOOL[e[2]])
+    if k == "F":
+        return "EFree %d" % e[1]
+    if k == "LD":
+        return "ELdDone %d %s" % (e[1], BOOL[e[2]])
+    if k == "XD":
+        return "EXchgDone %d %s" % (e[1], BOOL[e[2]])
+    if k == "LS":
+        return "ELdState %d %s%%N" % (e[1], e[2])
+    if k == "XS":
+        return "EXchgState %d %s%%N" % (e[1], e[2])
+    if k == "CS":
+        return "ECasState %d %s" % (e[1], BOOL[e[2]])
+    if k == "SS":
+        return "ESubState %d %s%%N" % (e[1], e[2])
+    if k == "SO":
+        return "ESetOut %d" % e[1]
+    if k == "D":
+        return "EDec %d %d" % (e[1], e[2])
+    if k == "DF":
+        return "EDFree %d %d" % (e[1], e[2])
+    if k == "P":
+        return "EPublish %d" % e[1]
+    raise ValueError(e)
+
+
+def render_ml(e):
+    return ":".join(str(x) for x in e)
 
 
 def decode_obs(r):
@@ -244,17 +293,24 @@ def decode_obs(r):
 
 
 def expected_out(sc, observed):
-    """What the model must predict for the observed output codes: (kind, codes in WhenObs encoding)."""
+    """What the model must predict for the observed output codes: (kind, codes in WhenObs encoding).
+    kind 0 vector / 1 unit / 2 single outcome."""
     cnt, codes = observed
-    if codes == [1]:
+    k = sc["kind"]
+    if k.startswith("any"):
+        return 2, [enc_of_code(c) for c in codes]
+    first_fail = k in ("allff", "joinff")
+    if first_fail and len(codes) == 1 and codes[0] >= 2000:
+        return 2, [enc_of_code(codes[0])]          # FirstFail: the failure
+    if k in ("join", "joinff") or (k == "allff" and sc["typ"] == "void"):
         return 1, []
-    if len(codes) == 1 and (codes[0] >= 2000 or sc["kind"].startswith("any")):
-        return 2, [enc_of_code(codes[0])]
     return 0, [enc_of_code(c) for c in codes]
 
 
 def compare(sc, observed, model):
     """'' if the model's prediction equals the observation, else a description."""
+    if model is None:
+        return "model evaluation failed"
     if model["rejected"] is not None:
         return "model rejects event #%d" % model["rejected"]
     if observed is None or observed[0] != 1:
@@ -273,14 +329,16 @@ def compare(sc, observed, model):
     return ""
 
 
+# ------------------------------------------------------------------------------------------------ replay inside Coq
+
 def coq_eval_many(groups, name, batch=60, timeout=900):
-    """groups: list of (strategy, n, [event list, ...]).  Returns, aligned with the flattened input, the decoded
+    """groups: list of (strategy, n, [events, ...]).  Returns, aligned with the flattened input, the decoded
     observation of each trace (None when the evaluation failed)."""
     terms, sizes = [], []
     for sg, n, trs in groups:
         for k in range(0, len(trs), batch):
             chunk = trs[k:k + batch]
-            terms.append("obs_many %s %d [%s]" % (sg, n, "; ".join("[" + "; ".join(t) + "]" for t in chunk)))
+            terms.append("obs_many %s %d [%s]" % (sg, n, "; ".join("[" + "; ".join(render_coq(e) for e in t) + "]" for t in chunk)))
             sizes.append(len(chunk))
     res, logs = vlib.coq_eval_cases(HEADER, terms, name, shard=40, timeout=timeout) if terms else ([], [])
     out = []
@@ -295,3 +353,340 @@ def coq_eval_many(groups, name, batch=60, timeout=900):
             p += 1 + ln
         out.extend(got if len(got) == k else [None] * k)
     return out, logs
+
+
+# ------------------------------------------------------------------------------------------------ the extracted model
+
+def build_replayer():
+    """Extract WhenObs.obs_nat to OCaml and compile it with checks/when_replay.ml.  Cached by content."""
+    coq = vlib.COQ
+    srcs = [os.path.join(coq, "model", "When.v"), os.path.join(coq, "model", "WhenObs.v"),
+            os.path.join(vlib.VERIF, "checks", "when_replay.ml")]
+    h = hashlib.sha1()
+    for s in srcs:
+        h.update(open(s, "rb").read())
+    base = os.environ.get("VERIF_WHEN_CACHE", "/var/tmp/yaclib-verif-when")   # not inside vlib.CACHE: that one is pruned
+    os.makedirs(base, exist_ok=True)
+    d = os.path.join(base, "replay_" + h.hexdigest()[:12])
+    exe = os.path.join(d, "when_replay")
+    if os.path.exists(exe):
+        return exe
+    tmp = d + ".tmp%d" % os.getpid()
+    os.makedirs(tmp, exist_ok=True)
+    open(os.path.join(tmp, "ext.v"), "w").write(
+        "From Coq Require Import Extraction ExtrOcamlBasic.\nFrom YV Require Import model.When model.WhenObs.\n"
+        "Extraction \"when_model.ml\" obs_nat.\n")
+    r = vlib.sh(["coqc", "-Q", coq, "YV", "ext.v"], cwd=tmp, timeout=300)
+    if r.returncode != 0:
+        raise vlib.BuildError("extraction of the When model failed:\n" + r.stdout[-3000:])
+    shutil.copy(srcs[2], os.path.join(tmp, "when_replay.ml"))
+    r = vlib.sh(["ocamlfind", "ocamlopt", "-w", "-a", "when_model.mli", "when_model.ml", "when_replay.ml", "-o", "when_replay"],
+                cwd=tmp, timeout=300)
+    if r.returncode != 0:
+        raise vlib.BuildError("compilation of the extracted When model failed:\n" + r.stdout[-3000:])
+    try:
+        os.rename(tmp, d)
+    except OSError:
+        shutil.rmtree(tmp, ignore_errors=True)
+    return exe
+
+
+def replay_ml(exe, items, workers=None):
+    """items: list of (strategy, n, events).  Returns the decoded observations, aligned."""
+    workers = workers or max(2, vlib.NPROC // 2)
+    chunks = [items[k::workers] for k in range(workers)]
+
+    def run(chunk):
+        if not chunk:
+            return []
+        inp = "\n".join("%s %d %s" % (sg, n, " ".join(render_ml(e) for e in evs)) for sg, n, evs in chunk) + "\n"
+        r = subprocess.run([exe], input=inp, stdout=subprocess.PIPE, stderr=subprocess.PIPE, text=True)
+        lines = r.stdout.split("\n")
+        out = []
+        for k in range(len(chunk)):
+            try:
+                out.append(decode_obs([int(x) for x in lines[k].split()]))
+            except Exception:
+                out.append(None)
+        return out
+
+    with concurrent.futures.ThreadPoolExecutor(workers) as ex:
+        parts = list(ex.map(run, chunks))
+    res = [None] * len(items)
+    for k, part in enumerate(parts):
+        for j, v in enumerate(part):
+            res[k + j * workers] = v
+    return res
+
+
+# ------------------------------------------------------------------------------------------------ exploration jobs
+
+def run_job(job):
+    """One harness invocation (runs in a worker process).  job = dict(exe, args, harness).  Returns a summary: header rows,
+    failing executions, and the distinct model-level traces (deduplicated after the mapping)."""
+    try:
+        rows, out, err, rc = runner.run_harness(job["exe"], job["args"], timeout=job.get("timeout", 1500))
+    except (FileNotFoundError, PermissionError):
+        # the shared build cache was pruned by a concurrent check of another tree: the driver rebuilds and retries
+        return dict(job=dict(args=job["args"], harness=job["harness"]), missing=True, heads=[], fails=[], maperr=[],
+                    distinct={}, raw=0, crash=None)
+    heads = [r for r in rows if "mode" in r]
+    fails, maperr, distinct = [], [], {}
+    raw = 0
+    crash = None
+    if rc != 0:
+        m = re.search(r"CRASH signal=(\d+) choices=([\d,]*)", out + err)
+        crash = dict(rc=rc, text=(err or out)[-1500:], choices=m.group(2) if m else None)
+    for r in rows:
+        if "trace" not in r:
+            continue
+        raw += 1
+        if r["fail"]:
+            fails.append(r)
+            continue
+        sc = parse_name(r["scenario"])
+        if not has_model(sc):
+            continue
+        try:
+            evs, obs = to_events(sc, r["trace"])
+        except MapError as e:
+            maperr.append(dict(scenario=r["scenario"], why=str(e), trace=r["trace"], choices=r["choices"]))
+            continue
+        key = (strategy(sc), sc["n"], evs, tuple(obs[1]) if obs else None)
+        d = distinct.get(key)
+        if d is None:
+            distinct[key] = dict(scenario=r["scenario"], trace=r["trace"], choices=r["choices"], observed=obs, count=r["count"])
+        else:
+            d["count"] += r["count"]
+    return dict(job=dict(args=job["args"], harness=job["harness"]), heads=heads, fails=fails, maperr=maperr,
+                distinct=distinct, raw=raw, crash=crash)
+
+
+def interleaved(evs):
+    """A model-level trace is contended when the steps of two different inputs interleave: some input's events
+    (registration, exchange, consume step) are not contiguous because another input's event lies between them."""
+    seen, last = set(), None
+    for e in evs:
+        if e[0] == "C":
+            continue
+        i = e[1]
+        if i != last:
+            if i in seen:
+                return True
+            seen.add(i)
+            last = i
+    return False
+
+
+# ------------------------------------------------------------------------------------------------ the check driver
+
+def compile_parts(cfg, source, name, nparts):
+    """Compile the harness parts (-DWH_PART=k) in parallel; returns {part: exe}."""
+    vlib.build(cfg)  # once, under its lock, before the parallel harness builds
+
+    def comp(p):
+        exe, b = vlib.compile_harness(cfg, [source], "%s_p%d" % (name, p), extra=["-DWH_PART=%d" % p])
+        return p, exe
+
+    with concurrent.futures.ThreadPoolExecutor(min(nparts, max(2, vlib.NPROC // 2))) as ex:
+        return dict(ex.map(comp, range(nparts)))
+
+
+def list_scenarios(exes):
+    """{scenario name: part}"""
+    where = {}
+    for p, exe in exes.items():
+        r = subprocess.run([exe, "--list"], stdout=subprocess.PIPE, text=True, timeout=60)
+        for line in r.stdout.split():
+            where[line] = p
+    return where
+
+
+# forms explored exhaustively already in the quick tier (the thorough tier does all of them)
+QUICK_EXHAUSTIVE = ("vecUval", "varUhet", "vecUvoid")
+
+
+def plan(tier, seed, where, exes, harness, quick_exhaustive=QUICK_EXHAUSTIVE):
+    """The exploration jobs: one harness invocation per (configuration, arrangement)."""
+    groups = {}
+    for name, p in where.items():
+        sc = parse_name(name)
+        groups.setdefault((sc["cfg"], sc["arr"]), (sc, p))
+    jobs = []
+    for k, ((cfg, arr), (sc, p)) in enumerate(sorted(groups.items())):
+        n, shared = sc["n"], sc["inputs"] != "U"
+        only = "%s/%s/" % (cfg, arr)
+        if n <= 1:
+            mode, args = "dfs", ["--mode", "dfs", "--max", "200000"]
+        elif n == 2 and arr != "p":
+            fi = cfg.split("/")[1]
+            if tier == "thorough":
+                mode, args = "dfs", ["--mode", "dfs", "--max", "400000" if shared else "1500000"]
+            elif fi in quick_exhaustive:
+                mode, args = "dfs", ["--mode", "dfs", "--max", "300000"]
+            else:
+                mode, args = "dfs-pb2", ["--mode", "dfs", "--pb", "2", "--max", "5000"]
+        elif n == 2:
+            if tier == "thorough":
+                mode, args = "dfs-pb3", ["--mode", "dfs", "--pb", "3", "--max", "60000"]
+            else:
+                mode, args = "dfs-pb2", ["--mode", "dfs", "--pb", "2", "--max", "4000"]
+        else:
+            cnt = (600 if n == 3 else 250) if tier == "thorough" else (40 if n == 3 else 12)
+            mode, args = "random", ["--mode", "random", "--max", str(cnt), "--seed", str(seed * 100000 + k * 97)]
+        jobs.append(dict(exe=exes[p], harness=harness, part=p, cfg=cfg, arr=arr, n=n, mode=mode,
+                         args=args + ["--only", only], timeout=1700))
+    return jobs
+
+
+def run_check(ck, pid, harness, nparts, props, quick_exhaustive=QUICK_EXHAUSTIVE):
+    """Everything C09 and C10 have in common."""
+    import runner as _r
+    t0 = time.time()
+    ck.assumptions = [
+        "FIBER backend: sequentially consistent, fibers switch only at the wrapped yaclib_std operations (memory orders are C04's subject)",
+        "model coq/model/When.v: n inputs, each handed off by C01's protocol (the producer's exchange and the builder's SetCallback are events; the builder's pre-check load that returns Empty is not), reference counter, the strategy's atomic word, output promise; which callback object is attached (Single/Static/DynamicCombinator), executors and the consumer of the output future are exercised, not modelled",
+        "Any<LastFail>: 2*n < 2^64 (fits size_t), hypothesis [fits] of the theorems",
+        "the input's producer is a plain Promise::Set / SharedPromise::Set; a SharedFuture input is the only callback on its shared state",
+    ]
+    ck.cov["trusted_base"] = [
+        "Coq 8.16.1 kernel; vm_compute for the in-Coq replay and the Example witnesses",
+        "Print Assumptions of every theorem in %s: Closed under the global context (no axioms)" % props,
+        "OCaml extraction of WhenObs.obs_nat + checks/when_replay.ml + ocamlopt 4.13 for the bulk replay (cross-checked against vm_compute on a sample of the same traces every run)",
+        "checks/when_common.py trace-to-event mapping (syntactic) and harness/when_h.hpp oracle (property text only)",
+        "YACLIB_VERIF hooks in the fault layer; FIBER scheduler and fiber atomics (C17-C19 are about those)",
+    ]
+    ck.prove(props, ["model/WhenObs.vo"])
+    src = os.path.join(vlib.VERIF, "harness", harness + ".cpp")
+    exes = compile_parts("F", src, harness, nparts)
+    where = list_scenarios(exes)
+    jobs = plan(ck.tier, ck.seed, where, exes, harness, quick_exhaustive)
+    replayer = build_replayer()
+    results = [None] * len(jobs)
+    todo = list(range(len(jobs)))
+    for attempt in range(4):
+        with concurrent.futures.ProcessPoolExecutor(max(2, (vlib.NPROC * 3) // 4)) as ex:
+            for k, res in zip(todo, ex.map(run_job, [jobs[k] for k in todo], chunksize=1)):
+                results[k] = res
+        todo = [k for k in todo if results[k].get("missing")]
+        if not todo:
+            break
+        exes = compile_parts("F", src, harness, nparts)      # rebuilt (the cache entry had been pruned)
+        for k in todo:
+            jobs[k]["exe"] = exes[jobs[k]["part"]]
+    if todo:
+        raise vlib.BuildError("the harness executables keep disappearing from the build cache (concurrent pruning)")
+    t_explore = time.time() - t0
+    # ---- oracle verdicts
+    heads = [h for r in results for h in r["heads"]]
+    ck.cov["evaluations"] = sum(h["executions"] for h in heads)
+    ck.cov["scenarios"] = len(heads)
+    by_mode = {}
+    for job, r in zip(jobs, results):
+        m = by_mode.setdefault(job["mode"], dict(scenarios=0, executions=0, exhaustive=0))
+        for h in r["heads"]:
+            m["scenarios"] += 1
+            m["executions"] += h["executions"]
+            m["exhaustive"] += 1 if h["exhaustive"] else 0
+    ck.cov["exploration"] = by_mode
+    dfs = by_mode.get("dfs", dict(scenarios=0, exhaustive=0))
+    ck.cov["exhaustive"] = dfs["scenarios"] > 0 and dfs["exhaustive"] == dfs["scenarios"]
+    for job, r in zip(jobs, results):
+        if r["crash"]:
+            ck.hits.append(dict(what="%s: harness crashed (rc=%s) %s" % (job["cfg"], r["crash"]["rc"], r["crash"]["text"][-600:]),
+                                key="crash:" + job["cfg"].split("/")[0],
+                                replay=dict(harness=harness, part=job["part"], args=job["args"], choices=r["crash"]["choices"])))
+        for f in r["fails"]:
+            sc = parse_name(f["scenario"])
+            ck.hits.append(dict(what="%s: %s" % (f["scenario"], f["fail"]),
+                                key=sc["kind"] + ":" + re.sub(r"\d+", "N", f["fail"])[:48].replace(" ", "_"),
+                                replay=dict(harness=harness, part=job["part"], scenario=f["scenario"], choices=f["choices"],
+                                            trace=f["trace"])))
+        for e in r["maperr"][:3]:
+            ck.gen_obligation("correspondence When (trace vocabulary) on %s" % e["scenario"], False,
+                              "%s\ntrace: %s\nchoices: %s" % (e["why"], e["trace"], e["choices"]))
+    # ---- correspondence: every distinct model-level trace replayed through the model
+    merged = {}
+    raw = 0
+    for r in results:
+        raw += r["raw"]
+        for key, d in r["distinct"].items():
+            if key in merged:
+                merged[key]["count"] += d["count"]
+            else:
+                merged[key] = d
+    keys = list(merged.keys())
+    obs = replay_ml(replayer, [(k[0], k[1], k[2]) for k in keys])
+    bad = []
+    validated, nontriv = 0, 0
+    for k, o in zip(keys, obs):
+        d = merged[k]
+        why = compare(parse_name(d["scenario"]), d["observed"], o)
+        if why:
+            bad.append((d, why))
+        else:
+            validated += 1
+            if interleaved(k[2]):
+                nontriv += 1
+    # the same function evaluated by Coq itself on a deterministic sample (all of them when few)
+    limit = 6000 if ck.tier == "thorough" else 1500
+    step = max(1, len(keys) // limit)
+    sample = keys[::step]
+    groups = {}
+    for k in sample:
+        groups.setdefault((k[0], k[1]), []).append(k)
+    glist = [(sg, n, [k[2] for k in ks]) for (sg, n), ks in sorted(groups.items())]
+    order = [k for (sg, n), ks in sorted(groups.items()) for k in ks]
+    cres, logs = coq_eval_many(glist, pid.lower()) if glist else ([], [])
+    ml = dict(zip(keys, obs))
+    coq_ok = 0
+    for k, o in zip(order, cres):
+        if o is None:
+            ck.gen_obligation("in-Coq replay of a sampled trace (%s)" % merged[k]["scenario"], False, (logs[0] if logs else "")[-1500:])
+            break
+        if o != ml[k]:
+            ck.gen_obligation("extracted model vs vm_compute on %s" % merged[k]["scenario"], False,
+                              "OCaml: %s\nCoq: %s\ntrace: %s" % (ml[k], o, merged[k]["trace"]))
+            break
+        coq_ok += 1
+    ck.cov["distinct_traces"] = raw
+    ck.cov["distinct_model_traces"] = len(keys)
+    ck.cov["traces_validated_against_impl"] = validated
+    ck.cov["traces_validated_inside_coq"] = coq_ok
+    ck.cov["distinct_nontrivial"] = nontriv
+    ck.cov["rule"] = ("implementation executions of harness/%s.cpp (configuration F) explored per scenario <kind>/<form>/<n>/<arrangement>/<pattern>: "
+                      "exhaustive DFS over every scheduling decision for n<=2 with one producer fiber completing the inputs in either order (q01,q10) "
+                      "or two producer fibers after the builder (pp) [quick: Future inputs exhaustive, SharedFuture/mixed preemption-bounded]; "
+                      "preemption-bounded DFS for two producers racing the builder (p); seeded random schedules for n=3,4; "
+                      "each execution is mapped to events of When.v and deduplicated; distinct_model_traces counts distinct (strategy, n, event sequence, observed output); "
+                      "non-trivial = the steps of two different inputs interleave (some input's registration/exchange/consume events are not contiguous)") % harness
+    ck.cov["samples"] = [dict(scenario=merged[k]["scenario"], trace=merged[k]["trace"], choices=merged[k]["choices"],
+                              executions=merged[k]["count"]) for k in keys[:2] + [k for k in keys if interleaved(k[2])][:3]]
+    ck.cov["wall_explore_s"] = round(t_explore, 1)
+    for d, why in bad[:10]:
+        ck.broken.append(dict(name="correspondence When.run vs implementation on %s" % d["scenario"],
+                              detail="%s\ntrace: %s\nchoices: %s" % (why, d["trace"], d["choices"])))
+    if not keys:
+        ck.broken.append(dict(name="correspondence When.run vs implementation", detail="the harness produced no traces"))
+    return dict(exes=exes, jobs=jobs, results=results, merged=merged)
+
+
+def replay_hit(ck, path, harness, nparts):
+    d = json.load(open(path))
+    rp = d.get("replay") or {}
+    if not rp.get("scenario") and not rp.get("args"):
+        print("nothing to replay: %s" % json.dumps(d)[:2000])
+        return 0
+    src = os.path.join(vlib.VERIF, "harness", harness + ".cpp")
+    part = rp.get("part", 0)
+    exe, b = vlib.compile_harness("F", [src], "%s_p%d" % (harness, part), extra=["-DWH_PART=%d" % part])
+    if rp.get("scenario"):
+        args = ["--mode", "replay", "--exact", rp["scenario"], "--choices", rp.get("choices") or ""]
+    else:
+        args = rp["args"]
+    rows, out, err, rc = runner.run_harness(exe, args)
+    print(out[-4000:])
+    if err:
+        print(err[-2000:])
+    bad = any(r.get("fail") for r in rows if "trace" in r)
+    return 1 if bad or rc != 0 else 0
